@@ -52,6 +52,7 @@ type Order struct {
 }
 
 type EntModel struct {
+	DenomChanged bool // governance changed the enterprise denomination at least once in this run
 	Signers    []string
 	SignersRaw string
 	Denom      string
@@ -647,6 +648,9 @@ func (m *Models) Apply(msg sdk.Msg, now time.Time, blk int) {
 		}
 	case *enttypes.MsgUpdateParams:
 		m.Ent.setSigners(x.Params.EntSigners)
+		if x.Params.Denom != m.Ent.Denom {
+			m.Ent.DenomChanged = true
+		}
 		m.Ent.Denom, m.Ent.MinAccepts, m.Ent.Limit = x.Params.Denom, x.Params.MinAccepts, x.Params.DecisionTimeLimit
 		m.ParamChanged["ent"] = blk
 		m.LastUpdate["ent"] = x
